@@ -22,7 +22,11 @@ ASSUMPTIONS = [
 
 
 def plan(tier, seed):
-    return ac.std_plan(tier, quick_budget=70, thorough_budget=600)
+    p = ac.std_plan(tier, quick_budget=70, thorough_budget=600)
+    if tier == "thorough":   # the repository's own suite as extra workload for M-DIS
+        p["shards"].append({"env": {}, "params": {"suite": "dis,prog"}})
+        p["timeout"] = 3000
+    return p
 
 
 def _units_of(ua):
@@ -149,6 +153,10 @@ def check_case(ctx, case):
 
 def run(ctx):
     ac.setup(ctx)
+    if ctx.params.get("suite"):
+        from ..suite import run_suite_under_monitors
+        run_suite_under_monitors(ctx, ctx.params["suite"])
+        return
     rng = ctx.rng
     dspecs = cases.gen_pool_specs(rng, ctx.scale(12, 30))
     dspecs.append({"kind": "combined", "alpha": 1.0, "beta": 1.0, "delta": 0.5, "pos": None, "cat": None})
